@@ -367,4 +367,78 @@ theorem tie_skel_mappingQueueManagerMemfd : Gen.Skel.mappingQueueManagerMemfd = 
   "}, nil",
   "}"] := by rfl
 
+/-! further functions on this property's paths (any edit to them is reported) -/
+
+theorem tie_skel_DefaultConfig : Gen.Skel.DefaultConfig = [
+  "func DefaultConfig() *Config {",
+  "return &Config{",
+  "ConnectionWriteTimeout: 10 * time.Second,",
+  "InitializeTimeout: 1000 * time.Millisecond,",
+  "QueueCap: defaultQueueCap,",
+  "ShareMemoryBufferCap: defaultShareMemoryCap,",
+  "ShareMemoryPathPrefix: \"/dev/shm/shmipc\",",
+  "QueuePath: \"/dev/shm/shmipc_queue\",",
+  "LogOutput: os.Stdout,",
+  "MemMapType: MemMapTypeDevShmFile,",
+  "BufferSliceSizes: []*SizePercentPair{",
+  "{8192 - bufferHeaderSize, 50},",
+  "{32*1024 - bufferHeaderSize, 30},",
+  "{128*1024 - bufferHeaderSize, 20},",
+  "},",
+  "rebuildInterval: sessionRebuildInterval,",
+  "}",
+  "}"] := by rfl
+
+theorem tie_skel_min : Gen.Skel.min = [
+  "func min(a, b uint32) uint32 {",
+  "if a < b {",
+  "return a",
+  "}",
+  "return b",
+  "}"] := by rfl
+
+theorem tie_skel_maxInt : Gen.Skel.maxInt = [
+  "func maxInt(a, b int) int {",
+  "if a < b {",
+  "return b",
+  "}",
+  "return a",
+  "}"] := by rfl
+
+theorem tie_skel_pathExists : Gen.Skel.pathExists = [
+  "func pathExists(path string) bool {",
+  "_, err := os.Stat(path)",
+  "if err != nil {",
+  "return os.IsExist(err)",
+  "}",
+  "return true",
+  "}"] := by rfl
+
+theorem tie_skel_canCreateOnDevShm : Gen.Skel.canCreateOnDevShm = [
+  "func canCreateOnDevShm(size uint64, path string) bool {",
+  "if runtime.GOOS == \"linux\" && strings.Contains(path, \"/dev/shm\") {",
+  "stat, err := disk.Usage(\"/dev/shm\")",
+  "if err != nil {",
+  "return false",
+  "}",
+  "return stat.Free >= size",
+  "}",
+  "return true",
+  "}"] := by rfl
+
+theorem tie_skel_sizePercentPairs_Len : Gen.Skel.sizePercentPairs_Len = [
+  "func (s sizePercentPairs) Len() int {",
+  "return len([]*SizePercentPair(s))",
+  "}"] := by rfl
+
+theorem tie_skel_sizePercentPairs_Less : Gen.Skel.sizePercentPairs_Less = [
+  "func (s sizePercentPairs) Less(i, j int) bool {",
+  "return s[i].Size < s[j].Size",
+  "}"] := by rfl
+
+theorem tie_skel_sizePercentPairs_Swap : Gen.Skel.sizePercentPairs_Swap = [
+  "func (s sizePercentPairs) Swap(i, j int) {",
+  "s[i], s[j] = s[j], s[i]",
+  "}"] := by rfl
+
 end Tie.C03
